@@ -187,6 +187,23 @@ Proof.
   rewrite A, B. cbn [set_step p_step p_size]. split; [lia | reflexivity].
 Qed.
 
+Lemma show_keeps_cols clamped st now t s e :
+  p_cols (fst (show w sw mdr clamped st now t s e)) = p_cols st.
+Proof.
+  unfold show. destruct (throttled st now); [reflexivity|]. cbv zeta.
+  destruct (progress_text_gen _ _ _ _ _ _ _ _ _ _ _ _ _ _); reflexivity.
+Qed.
+
+(* only setTerminalColumns changes the width a bar lays its lines out for *)
+Lemma apply_op_cols clamped o st :
+  p_cols (fst (apply_op w sw mdr clamped o st)) = match o with OpCols c => c | _ => p_cols st end.
+Proof.
+  destruct o as [n|nm|z|z now t s e|now t s e|z|b|c]; cbn [apply_op]; try reflexivity.
+  - destruct (wrap64 (z + p_pre st) <=? p_step st); [reflexivity|].
+    destruct (p_pausing st); [reflexivity|]. rewrite show_keeps_cols. reflexivity.
+  - destruct (p_size st =? 0); [reflexivity|]. rewrite show_keeps_cols. reflexivity.
+Qed.
+
 End Plain.
 
 (* ------------------------------------------------------------------------------------ *)
@@ -467,7 +484,7 @@ Lemma assemble_ok (l : lay) cols fstep fsize pct :
     | BPanic => TPanic
     | BOk bar => TOk (trim_space ((if 0 <? l_len l then l_left l ++ Consts.progress_left_sep else l_left l) ++ bar ++ l_right l))
     end = TOk s /\
-    (Z.of_nat (length pct) <= cols -> Z.of_nat (dw s) <= cols).
+    Z.of_nat (dw s) <= Z.max cols (Z.of_nat (length pct)).
 Proof.
   intros [HI1 [HI2 HI3]] Hp Hexit Hk.
   destruct consts_rel as (Hc1 & [Hc2 Hc3] & Hc4 & _ & _ & Hsep & _).
@@ -477,7 +494,7 @@ Proof.
   assert (Hbl : bar_length cols l - Consts.progress_bar_brackets <= kmax).
   { unfold bar_length. destruct (0 <? l_len l); lia. }
   destruct (bar_ok fstep fsize (bar_length cols l) Hbl) as [bar [Hbar [Hshort Hlong]]].
-  rewrite Hbar. eexists. split; [reflexivity|]. intro Hpct.
+  rewrite Hbar. eexists. split; [reflexivity|].
   destruct (Z_lt_le_dec (bar_length cols l) Consts.progress_bar_min) as [Hs'|Hl'].
   - (* no bar *)
     specialize (Hshort Hs'). subst bar.
@@ -501,13 +518,13 @@ Proof.
     + lia.
 Qed.
 
-(* the line is always produced (no negative repeat count), and it fits whenever the
-   percentage string itself fits *)
+(* the line is always produced (no negative repeat count), and it is never wider than the
+   wider of the terminal and the percentage string itself *)
 Lemma text_ok cols count idx name fstep fsize pct total speed eta :
   ascii pct = true -> ascii total = true -> ascii speed = true -> ascii eta = true ->
   cols <= kmax ->
   exists s, progress_text_gen w sw mdr true cols count idx name fstep fsize pct total speed eta = TOk s /\
-            (Z.of_nat (length pct) <= cols -> Z.of_nat (dw s) <= cols).
+            Z.of_nat (dw s) <= Z.max cols (Z.of_nat (length pct)).
 Proof.
   intros Hp Ht Hs He Hk.
   exact (assemble_ok (layout w sw cols count idx name pct total speed eta) cols fstep fsize pct
@@ -581,13 +598,13 @@ Definition op_ok (o : op) : Prop :=
   | _ => True
   end.
 
-(* a write is fine if it is not a panic and, on a terminal of at least 4 columns, the line
-   is no wider than the width it was laid out for *)
+(* a write is fine if it is not a panic and the line is no wider than the width it was laid
+   out for - or than 4 columns ("100%") when it was laid out for less *)
 Definition wr_ok (x : wr) : Prop :=
   match x with
   | WHide => True
   | WPanic => False
-  | WLine _ c _ text => 4 <= c -> Z.of_nat (dw text) <= c
+  | WLine _ c _ text => Z.of_nat (dw text) <= Z.max c 4
   end.
 
 Lemma show_spec st now t s e : 100 <= kmax -> p_cols st <= kmax ->
@@ -606,7 +623,7 @@ Proof.
                 (pct_text mdr true (p_step st) (p_size st)) t s e Hpa Ht Hs He Hc) as [text [Htext Hfit]].
     cbv zeta. rewrite Htext. cbn [fst snd set_shown p_cols p_step p_size].
     split; [|split; [|repeat split]].
-    + constructor; [|constructor]. cbn [wr_ok]. intro H4. apply Hfit. lia.
+    + constructor; [|constructor]. cbn [wr_ok]. lia.
     + intros k c pct text' [Heq|[]]. inversion Heq. split; reflexivity.
 Qed.
 
@@ -682,6 +699,134 @@ Proof.
   specialize (IH st1 Hw2). destruct (run w sw mdr true r st1) as [st2 outs]. cbn [fst] in *. lia.
 Qed.
 
+(* ---- the session: every line fits the most recent width ---- *)
+Lemma last_default_irrelevant (x : Z) l d d' : last (x :: l) d = last (x :: l) d'.
+Proof. revert x. induction l as [|y l IH]; intro x; [reflexivity|]. cbn [last] in *. apply (IH y). Qed.
+
+Lemma sess_consts : 0 <= Consts.progress_tmux_margin /\ Consts.progress_pane_ignored <= Consts.progress_tmux_min.
+Proof. vm_compute. split; discriminate. Qed.
+
+Definition sevent_ok (e : sevent) : Prop :=
+  match e with
+  | SeResize c => c <= kmax
+  | SeTick t => op_ok (tick_op t)
+  | _ => True
+  end.
+
+(* a write is fine for a terminal of wd columns (4 <= wd): no panic, no line wider than wd *)
+Definition swr_ok (wd : Z) (x : swr) : Prop :=
+  match x with
+  | SwShow => True
+  | SwBar WHide => True
+  | SwBar WPanic => False
+  | SwBar (WLine _ _ _ text) => 4 <= wd -> Z.of_nat (dw text) <= wd
+  end.
+
+(* the session knows the most recent width, and a live bar never lays out for more *)
+Definition sess_inv (wd : Z) (s : session) : Prop :=
+  s_cols s = wd /\ match s_bar s with Some b => p_cols b <= wd | None => True end.
+
+Lemma sess_on_bar_spec o s wd : 100 <= kmax -> wd <= kmax -> sess_inv wd s -> op_ok o ->
+  (forall c, o = OpCols c -> c <= wd) ->
+  sess_inv wd (fst (sess_on_bar w sw mdr true s o)) /\
+  Forall (swr_ok wd) (snd (sess_on_bar w sw mdr true s o)).
+Proof.
+  intros Hk Hwd [Hc Hb] Ho Hcols. unfold sess_on_bar. destruct (s_bar s) as [b|] eqn:Eb.
+  - assert (Hbk : p_cols b <= kmax) by lia.
+    destruct (apply_op_spec o b Hk Hbk Ho) as [A [_ C]].
+    pose proof (apply_op_cols w sw mdr true o b) as Hcw.
+    destruct (apply_op w sw mdr true o b) as [b' out]. cbn [fst snd] in *.
+    assert (Hb' : p_cols b' <= wd).
+    { rewrite Hcw. destruct o; try exact Hb. apply Hcols. reflexivity. }
+    split.
+    + split; [exact Hc | exact Hb'].
+    + apply Forall_forall. intros x Hx. apply in_map_iff in Hx. destruct Hx as [y [Hy Hin]]. subst x.
+      rewrite Forall_forall in A. specialize (A y Hin).
+      destruct y as [|k c pct text|]; cbn [swr_ok]; [exact I | | exact A].
+      cbn [wr_ok] in A. destruct (C k c pct text Hin) as [Ec _]. intro H4. lia.
+  - cbn [fst snd]. split; [split; [exact Hc | rewrite Eb; exact I] | constructor].
+Qed.
+
+Lemma sess_step_spec e s wd : 100 <= kmax -> wd <= kmax -> sess_inv wd s -> sevent_ok e ->
+  sess_inv (match e with SeResize c => c | _ => wd end) (fst (sess_step w sw mdr true e s)) /\
+  Forall (swr_ok (match e with SeResize c => c | _ => wd end)) (snd (sess_step w sw mdr true e s)).
+Proof.
+  intros Hk Hwd Hinv He. destruct e as [c|quiet pane|t| | |]; cbn [sess_step sevent_ok] in *.
+  - (* resize: the session value, and the live bar whatever it was laid out for before *)
+    unfold sess_on_bar. cbn [s_bar s_cols]. destruct (s_bar s) as [b|].
+    + cbn [apply_op fst snd map]. split; [split; [reflexivity | cbn [s_bar p_cols]; lia] | constructor].
+    + cbn [fst snd]. split; [split; [reflexivity | exact I] | constructor].
+  - (* a new transfer: the bar is created from the session value *)
+    destruct Hinv as [Hc _]. destruct quiet.
+    + cbn [fst snd]. split; [split; [exact Hc | exact I] | constructor].
+    + cbn [fst snd]. split; [|constructor]. split; [exact Hc|]. cbn [s_bar new_bar p_cols].
+      destruct sess_consts as [Hm Hi].
+      destruct (s_cols s <? pane) eqn:E1; [apply Z.ltb_lt in E1 | apply Z.ltb_ge in E1].
+      * replace (Consts.progress_tmux_min <? Consts.progress_pane_ignored) with false by (symmetry; apply Z.ltb_ge; lia). lia.
+      * destruct (Consts.progress_tmux_min <? pane); lia.
+  - apply sess_on_bar_spec; try assumption. intros c Hc. destruct t; discriminate Hc.
+  - apply sess_on_bar_spec; try assumption. intros c Hc; discriminate Hc.
+  - (* the prompt closes: the bar is set to the session value, then un-paused *)
+    assert (H1 := sess_on_bar_spec (OpCols (s_cols s)) s wd Hk Hwd Hinv).
+    cbn [op_ok] in H1. destruct Hinv as [Hc Hb]. 
+    specialize (H1 ltac:(lia) ltac:(intros c E; inversion E; lia)). destruct H1 as [I1 O1].
+    destruct (sess_on_bar w sw mdr true s (OpCols (s_cols s))) as [s1 o1]. cbn [fst snd] in *.
+    assert (H2 := sess_on_bar_spec (OpPause false) s1 wd Hk Hwd I1 I ltac:(intros c E; discriminate E)).
+    destruct H2 as [I2 O2].
+    destruct (sess_on_bar w sw mdr true s1 (OpPause false)) as [s2 o2]. cbn [fst snd] in *.
+    split; [exact I2 | apply Forall_app; split; assumption].
+  - destruct Hinv as [Hc _]. cbn [fst snd]. split; [split; [exact Hc | exact I]|].
+    destruct (s_bar s); repeat constructor.
+Qed.
+
+(* C20_session: over every history of resizes, transfers, callbacks and stop prompts, what
+   each event writes fits the width of the most recent resize *)
+Lemma sess_run_ok : 100 <= kmax -> forall evs s wd, wd <= kmax -> sess_inv wd s -> Forall sevent_ok evs ->
+  Forall2 (fun out wd' => Forall (swr_ok wd') out) (snd (sess_run w sw mdr true evs s)) (sess_widths evs wd) /\
+  s_cols (fst (sess_run w sw mdr true evs s)) = last (sess_widths evs wd) wd.
+Proof.
+  intro Hk. induction evs as [|e r IH]; intros s wd Hwd Hinv He.
+  - cbn [sess_run sess_widths snd fst last]. split; [constructor | exact (proj1 Hinv)].
+  - inversion He as [|? ? He1 He2]; subst. cbn [sess_run sess_widths].
+    destruct (sess_step_spec e s wd Hk Hwd Hinv He1) as [I1 O1].
+    assert (Hwd' : match e with SeResize c => c | _ => wd end <= kmax).
+    { destruct e; try exact Hwd. exact He1. }
+    destruct (sess_step w sw mdr true e s) as [s1 out]. cbn [fst snd] in *.
+    destruct (IH s1 _ Hwd' I1 He2) as [F L].
+    destruct (sess_run w sw mdr true r s1) as [s2 outs]. cbn [fst snd] in *.
+    split; [constructor; assumption|].
+    rewrite L. destruct (sess_widths r (match e with SeResize c => c | _ => wd end)) as [|z l] eqn:E; [reflexivity|].
+    change (last (z :: l) (match e with SeResize c => c | _ => wd end) = last (z :: l) wd).
+    apply last_default_irrelevant.
+Qed.
+
+(* the width a new bar is laid out for is the current one (or the announced pane minus its margin) *)
+Lemma sess_start_width s pane :
+  match s_bar (fst (sess_step w sw mdr true (SeStart false pane) s)) with
+  | Some b => p_cols b = if (Consts.progress_tmux_min <? pane) && (pane <=? s_cols s)
+                         then pane - Consts.progress_tmux_margin else s_cols s
+  | None => False
+  end.
+Proof.
+  cbn [sess_step fst s_bar new_bar p_cols]. destruct sess_consts as [Hm Hi].
+  destruct (s_cols s <? pane) eqn:E1; [apply Z.ltb_lt in E1 | apply Z.ltb_ge in E1].
+  - replace (Consts.progress_tmux_min <? Consts.progress_pane_ignored) with false by (symmetry; apply Z.ltb_ge; lia).
+    replace (pane <=? s_cols s) with false by (symmetry; apply Z.leb_gt; lia). rewrite andb_false_r. reflexivity.
+  - replace (pane <=? s_cols s) with true by (symmetry; apply Z.leb_le; lia). rewrite andb_true_r. reflexivity.
+Qed.
+
+(* a resize reaches the session and the live bar *)
+Lemma sess_resize_width s c :
+  s_cols (fst (sess_step w sw mdr true (SeResize c) s)) = c /\
+  match s_bar s, s_bar (fst (sess_step w sw mdr true (SeResize c) s)) with
+  | Some _, Some b' => p_cols b' = c
+  | None, None => True
+  | _, _ => False
+  end.
+Proof.
+  cbn [sess_step]. unfold sess_on_bar. cbn [s_bar s_cols]. destruct (s_bar s) as [b|]; cbn [apply_op fst s_cols s_bar p_cols]; split; reflexivity || exact I.
+Qed.
+
 End Widths.
 
 (* ------------------------------------------------------------------------------------ *)
@@ -737,7 +882,9 @@ Lemma c20_text cols count idx name fstep fsize pct total speed eta :
 Proof.
   destruct HW as (A1 & A2 & A3 & A4 & A5 & A6 & A7 & A8 & A9). destruct HR as (B1 & B2 & B3).
   unfold progress_text. rewrite clamp_src_ok.
-  pose proof (text_ok w sw dw mdr kmax) as H. c20_feed H. apply H.
+  pose proof (text_ok w sw dw mdr kmax) as H. c20_feed H.
+  intros Hp Ht Hs He Hk. destruct (H cols count idx name fstep fsize pct total speed eta Hp Ht Hs He Hk) as [s [E F]].
+  exists s. split; [exact E | lia].
 Qed.
 
 Lemma c20_fits cols count idx name fstep fsize pct total speed eta s :
@@ -839,6 +986,42 @@ Proof.
   intros Hin. destruct (H' k c pct text Hin) as [E1 E2]. split; [exact E1|].
   rewrite E2. unfold st_pct.
   pose proof (pct_text_val w dw mdr kmax) as H2. c20_feed H2. apply H2. exact Hk.
+Qed.
+
+(* the session: whatever the history of resizes, transfers, callbacks and stop prompts, every
+   write fits the width of the most recent resize, and the session remembers that width *)
+Lemma c20_session evs c0 : 100 <= kmax -> c0 <= kmax -> Forall (sevent_ok kmax) evs ->
+  Forall2 (fun out wd => Forall (swr_ok dw wd) out)
+          (snd (sess_run_cur w sw mdr evs (sess_init c0))) (sess_widths evs c0) /\
+  s_cols (fst (sess_run_cur w sw mdr evs (sess_init c0))) = last (sess_widths evs c0) c0.
+Proof.
+  destruct HW as (A1 & A2 & A3 & A4 & A5 & A6 & A7 & A8 & A9). destruct HR as (B1 & B2 & B3).
+  intros Hk Hc He. unfold sess_run_cur. rewrite clamp_src_ok.
+  pose proof (sess_run_ok w sw dw mdr kmax) as H. c20_feed H.
+  apply H; [exact Hc | split; [reflexivity | exact I] | exact He].
+Qed.
+
+Lemma c20_session_start s pane :
+  match s_bar (fst (sess_step_cur w sw mdr (SeStart false pane) s)) with
+  | Some b => p_cols b = if (Consts.progress_tmux_min <? pane) && (pane <=? s_cols s)
+                         then pane - Consts.progress_tmux_margin else s_cols s
+  | None => False
+  end.
+Proof.
+  destruct HW as (A1 & A2 & A3 & A4 & A5 & A6 & A7 & A8 & A9). destruct HR as (B1 & B2 & B3).
+  unfold sess_step_cur. rewrite clamp_src_ok.
+  pose proof (sess_start_width w sw dw mdr) as H. c20_feed H. apply H.
+Qed.
+
+Lemma c20_session_resize s c :
+  s_cols (fst (sess_step_cur w sw mdr (SeResize c) s)) = c /\
+  match s_bar s, s_bar (fst (sess_step_cur w sw mdr (SeResize c) s)) with
+  | Some _, Some b' => p_cols b' = c
+  | None, None => True
+  | _, _ => False
+  end.
+Proof.
+  unfold sess_step_cur. rewrite clamp_src_ok. apply sess_resize_width.
 Qed.
 
 End Closed.
